@@ -111,10 +111,7 @@ def _request(tree, env, variant):
             if name == 'sort':
                 if not isinstance(ax, int) or not (-len(shape) <= ax < len(shape)):
                     raise Unsupported()
-                r = run(name, params, [x])
-                if r is None and np.any(x._mask_):
-                    raise Unsupported()      # TEMPORARY: defect 18 (owner C13) - sort with masked elements raises under NumPy 2
-                return ['sort', ax % len(shape), t], r
+                return ['sort', ax % len(shape), t], run(name, params, [x])
             if ax is None:
                 axes = list(range(len(shape)))
             else:
@@ -143,18 +140,7 @@ def _request(tree, env, variant):
                 idx_ids[key] = len(idxs)
                 data = il['vals'] if variant == 'A' else il['alt']
                 idxs.append([il['shape'], [int(v) for v in data], mask_sx(il['mask'], il['shape'])])
-            r = None
-            if x is not None:
-                try:
-                    with warnings.catch_warnings():
-                        warnings.simplefilter('ignore')
-                        r = O.apply_op(name, params, [x, objs[key]])
-                except ValueError:
-                    # TEMPORARY (indexer post-mask defects, owner C09): `post_mask or self._mask_` with an all-False
-                    # post-mask ARRAY raises "truth value of an array is ambiguous" (indexer.py:54)
-                    raise Unsupported()
-                except Exception:
-                    r = None
+            r = None if x is None else run(name, params, [x, objs[key]])
             return ['index', t, idx_ids[key]], r
         if name == 'shrink_unshrink':
             t, x = go(node[2])
